@@ -34,7 +34,7 @@ import (
 type connPlan struct {
 	NMsg      int    `json:"nmsg"`      // client -> server messages before the end game
 	GoAt      int    `json:"goat"`      // the message that starts the server's writers
-	Chunk     string `json:"chunk"`     // one | split | frag
+	Chunk     string `json:"chunk"`     // one | split | frag | stream (thousands of small messages in large writes)
 	Writers   int    `json:"writers"`   // concurrent writer goroutines on the server
 	PerWriter int    `json:"perwriter"` // messages per writer
 	Big       bool   `json:"big"`       // some messages exceed the frame payload limit (fragmented)
@@ -557,7 +557,7 @@ func runConn(sc scen, id, addr string, p connPlan) {
 		}
 	}()
 	// send the client's items
-	if p.Chunk == "one" {
+	if p.Chunk == "one" || p.Chunk == "stream" {
 		var all []byte
 		for _, it := range items {
 			all = append(all, it.bytes...)
